@@ -125,6 +125,15 @@ class StateNode():
                                 problems
                             )
 
+                if not isinstance(child, dict):
+                    problems.append(
+                        f'{path}.States.{name} should be an Object'
+                    )
+                elif not isinstance(child.get("Type"), str):
+                    problems.append(
+                        f'{path}.States.{name} does not have required field "Type"'
+                    )
+
                 if name in self.all_state_names:
                     problems.append(
                         f'State "{name}", defined at {path}.States, ' +
